@@ -121,6 +121,21 @@ def handle (op : String) (args : List String) : Option String :=
     match toNative (← decGVal g) (← decOpts o) with
     | .error e => pure (encFail e)
     | .ok tv => pure (ansJson (jsonLeaf (← decFlag rfc) ((← decFlag stored) && tv.bytes.isEmpty) tv))
+  | "e2e", [g, o] => do
+    -- Set through the northbound server, validation by the plugin, commit, Get (PROTO and JSON)
+    match toNative (← decGVal g) (← decOpts o) with
+    | .error .panic => pure "panic"
+    | .error e => pure ("refused " ++ ((encFail e).drop 4).toString)
+    | .ok tv =>
+      if docBuildFails tv then pure "wedged" else
+      let proto := match toGnmi tv with
+        | .ok v => encGVal v
+        | .error e => encFail e
+      let js := match jsonLeaf true tv.bytes.isEmpty tv with
+        | .ok none => "none"
+        | .ok (some t) => (match jsonText t with | some bs => encBytes bs | none => "float")
+        | .error e => encFail e
+      pure ("ok stored=" ++ encTV tv ++ " proto=" ++ proto ++ " json=" ++ js ++ " plugin=" ++ js)
   | "strdec", [d, p] => do
     pure (ans (fun s => encBytes (asciiBytes s)) (strDecimal64 (← decInt d) (← decNat p)))
   | _, _ => none
